@@ -10,12 +10,12 @@ open Knut.Generated.ProcOrder
 in this order: check, ComputePrices, Valuate, Filter, CloseAccounts, Query.Into.  (The same list is pinned, from the slice literal only,
 by `TransBalanceCmd.processorOrder_pinned`; here also the way the slice reaches `Process` — `procs...`, no `append` — is checked.) -/
 theorem balanceOrder_eq : balanceOrder =
-    ["check.Check", "journal.ComputePrices", "journal.Valuate", "journal.Filter", "journal.CloseAccounts", "journal.Query.Into"] := rfl
+    ["check.Check", "journal.ComputePrices", "journal.Valuate", "journal.Filter", "journal.CloseAccounts", "journal.Query.Into"] := by decide
 
 /-- one `valuation`, one `partition`, `r.close`, the report of `balance.NewReport` -/
 theorem balanceCalls_eq : balanceCalls =
     [("check.Check", []), ("journal.ComputePrices", ["valuation"]), ("journal.Valuate", ["reg", "valuation"]),
      ("journal.Filter", ["partition"]), ("journal.CloseAccounts", ["j", "reg", "r.close", "partition"]),
-     ("journal.Query.Into", ["report"])] := rfl
+     ("journal.Query.Into", ["report"])] := by decide
 
 end Knut.FactsAgree.ProcOrder
